@@ -268,6 +268,36 @@ func solve(dir string, fr *FuncResult, o *Oblig, timeoutS int, all bool) {
 			}
 		}
 	default:
+		// a conjunctive goal that no solver decided as a whole: prove the conjuncts one by one (same hypotheses);
+		// all of them proved = the goal proved. A conjunct that is not proved leaves the obligation undecided.
+		if o.Expect == "unsat" && !o.noSplit {
+			if parts := flattenAnd(o.Goal); len(parts) > 1 {
+				allOK := true
+				var ms int64
+				for k, pt := range parts {
+					sub := *o
+					sub.Goal = pt
+					sub.Name = fmt.Sprintf("%s~c%d", o.Name, k+1)
+					sub.noSplit = false
+					sub.Result, sub.Solver, sub.Output, sub.Model, sub.Ms = "", "", "", "", 0
+					solve(dir, fr, &sub, timeoutS, all)
+					ms += sub.Ms
+					if sub.Result != "unsat" {
+						allOK = false
+						o.Output += fmt.Sprintf("[conjunct %d: %s] %s by %s\n%s", k+1, firstLines(pt, 1), sub.Result, sub.Solver, sub.Output)
+						if sub.Result == "sat" {
+							o.Result, o.Solver, o.Ms, o.Model = "sat", sub.Solver+"/conjunct", ms, sub.Model
+							return
+						}
+						break
+					}
+				}
+				if allOK {
+					o.Result, o.Solver, o.Ms = "unsat", "conjuncts", ms
+					return
+				}
+			}
+		}
 		o.Result, o.Solver = "unknown", "all"
 		for _, r := range outs {
 			o.Output += fmt.Sprintf("[%s] %s (%d ms): %s\n", r.solver, r.result, r.ms, firstLines(r.output, 3))
@@ -339,4 +369,21 @@ func (o *Oblig) ok() bool {
 		return o.Result != "unsat"
 	}
 	return o.Result == o.Expect
+}
+
+// flattenAnd splits a goal term at its top-level conjunctions.
+func flattenAnd(t string) []string {
+	t = strings.TrimSpace(t)
+	if !strings.HasPrefix(t, "(and ") {
+		return []string{t}
+	}
+	parts := splitSexp(t)
+	if len(parts) < 2 || parts[0] != "and" {
+		return []string{t}
+	}
+	var out []string
+	for _, p := range parts[1:] {
+		out = append(out, flattenAnd(p)...)
+	}
+	return out
 }
